@@ -921,6 +921,10 @@ class Interp:
             return r
         if isinstance(base, tuple):
             return self.index_concrete(list(base), idx)
+        if isinstance(base, VRec):
+            ci = self.engine.class_info(base.cls)
+            if ci is not None and ci.is_namedtuple:
+                return self.index_concrete([base.fields[f[0]] for f in ci.fields], idx)     # a NamedTuple is a tuple
         if isinstance(base, VRef):
             h = self.ctx.deref(base)
             if isinstance(h, HList):
@@ -1441,12 +1445,41 @@ class Interp:
             if ok:
                 self._comp(gens, i + 1, fr2, emit)
 
+    def keyset_filter_comp(self, node, fr):
+        """`{x for x in S if cond}` / `[x for x in S if cond]` over a set of records keyed by their identity: the
+        sub-collection of S where cond holds (as a set of records; a list built this way is only good for membership,
+        iteration order being arbitrary anyway)."""
+        if len(node.generators) != 1:
+            return None
+        g = node.generators[0]
+        if not (isinstance(g.target, ast.Name) and isinstance(node.elt, ast.Name) and node.elt.id == g.target.id):
+            return None
+        src = self.eval(g.iter, fr)
+        if not (isinstance(src, VRef) and isinstance(self.ctx.deref(src), HKeySet)):
+            return None
+        from . import keysets
+
+        def cond(elem):
+            fr2 = Frame(fr.module, {}, closure=fr)
+            self.assign_target(g.target, elem, fr2)
+            acc = True
+            for c in g.ifs:
+                acc = self.and_(acc, self.truth(self.eval(c, fr2)))
+            return acc
+        return self.ctx.alloc(HKeySet(keysets.filtered(self.engine, self, self.ctx.deref(src).val, cond)))
+
     def e_ListComp(self, node, fr):
+        ks = self.keyset_filter_comp(node, fr)
+        if ks is not None:
+            return ks
         out = []
         self._comp(node.generators, 0, fr, lambda fr2: out.append(self.eval(node.elt, fr2)))
         return self.ctx.alloc(HList(out))
 
     def e_SetComp(self, node, fr):
+        ks = self.keyset_filter_comp(node, fr)
+        if ks is not None:
+            return ks
         out = []
         self._comp(node.generators, 0, fr, lambda fr2: out.append(self.hashable(self.eval(node.elt, fr2))))
         return self.ctx.alloc(HSet(out))
